@@ -1983,4 +1983,367 @@ theorem unicodeRange_firstPres (rep : Nat → Bool) (ha : AsciiRep rep) : FirstP
   · intro c t hc
     exact noStart_sound (cs := [(48, 57), (65, 70)]) (by decide) (upperHexRanges c hc) t
 
+
+/-! ## URI: generic pieces -/
+
+/-- syntactic: no class of `r` contains the code point `k` -/
+def avoids (k : Nat) : Re → Bool
+  | .eps => true
+  | .cls neg rs => !Re.inCls neg rs k
+  | .seq a b => avoids k a && avoids k b
+  | .alt a b => avoids k a && avoids k b
+  | .star a _ => avoids k a
+  | .rep a _ _ _ => avoids k a
+  | .eol => true
+
+def Avoid (k : Nat) (f : Cps → List Nat) : Prop := ∀ x, ∀ l ∈ f x, ∀ c ∈ x.take l, c ≠ k
+
+theorem avoid_seq {k : Nat} {f g : Cps → List Nat} (hf : Avoid k f) (hg : Avoid k g) :
+    Avoid k (fun s => (f s).flatMap fun l1 => (g (s.drop l1)).map (l1 + ·)) := by
+  intro x l hl c hc
+  simp only [List.mem_flatMap, List.mem_map] at hl
+  obtain ⟨l1, h1, l2, h2, rfl⟩ := hl
+  rcases mem_take_add hc with h | h
+  · exact hf x l1 h1 c h
+  · exact hg _ l2 h2 c h
+
+theorem avoid_star {k : Nat} {f : Cps → List Nat} (hf : Avoid k f) (g : Bool) : ∀ n, Avoid k (Re.starMs f g n) := by
+  intro n
+  induction n with
+  | zero => intro x l hl c hc; simp [Re.starMs] at hl; subst hl; simp at hc
+  | succ n ih =>
+    have hmore : Avoid k (fun s => ((f s).filter (· > 0)).flatMap fun l1 => (Re.starMs f g n (s.drop l1)).map (l1 + ·)) :=
+      avoid_seq (f := fun s => (f s).filter (· > 0)) (fun x l hl => hf x l (List.mem_filter.mp hl).1) ih
+    intro x l hl c hc
+    simp only [Re.starMs] at hl
+    split at hl
+    · simp only [List.mem_append, List.mem_singleton] at hl
+      rcases hl with hl | rfl
+      · exact hmore x l hl c hc
+      · simp at hc
+    · simp only [List.mem_cons] at hl
+      rcases hl with rfl | hl
+      · simp at hc
+      · exact hmore x l hl c hc
+
+theorem avoid_rep {k : Nat} {f : Cps → List Nat} (hf : Avoid k f) (g : Bool) : ∀ n m, Avoid k (Re.repMs f g m n) := by
+  intro n
+  induction n with
+  | zero =>
+    intro m x l hl c hc
+    simp only [Re.repMs] at hl
+    split at hl
+    · simp at hl; subst hl; simp at hc
+    · simp at hl
+  | succ n ih =>
+    intro m
+    have hS := avoid_seq hf (ih (m - 1))
+    intro x l hl c hc
+    simp only [Re.repMs] at hl
+    split at hl
+    · split at hl
+      · simp only [List.mem_append, List.mem_singleton] at hl
+        rcases hl with hl | rfl
+        · exact hS x l hl c hc
+        · simp at hc
+      · simp only [List.mem_cons] at hl
+        rcases hl with rfl | hl
+        · simp at hc
+        · exact hS x l hl c hc
+    · exact hS x l hl c hc
+
+theorem avoids_sound (k : Nat) : ∀ r : Re, avoids k r = true → Avoid k r.ms := by
+  intro r
+  induction r with
+  | eps => intro _ x l hl c hc; simp [Re.ms] at hl; subst hl; simp at hc
+  | cls neg rs =>
+    intro h x l hl c hc
+    simp only [avoids, Bool.not_eq_true'] at h
+    cases x with
+    | nil => simp [Re.ms] at hl
+    | cons d t =>
+      simp only [Re.ms] at hl
+      split at hl
+      · rename_i hin
+        simp at hl; subst hl
+        simp at hc; subst hc
+        intro e; subst e; rw [h] at hin; cases hin
+      · simp at hl
+  | seq a b iha ihb =>
+    intro h
+    simp only [avoids, Bool.and_eq_true] at h
+    exact avoid_seq (iha h.1) (ihb h.2)
+  | alt a b iha ihb =>
+    intro h x l hl
+    simp only [avoids, Bool.and_eq_true] at h
+    simp only [Re.ms, List.mem_append] at hl
+    rcases hl with hl | hl
+    · exact iha h.1 x l hl
+    · exact ihb h.2 x l hl
+  | star a g iha => intro h; exact fun x => avoid_star (iha h) g _ x
+  | rep a m n g iha => intro h; exact avoid_rep (iha h) g n m
+  | eol => intro _ x l hl c hc; simp only [Re.ms] at hl; split at hl <;> simp at hl; subst hl; simp at hc
+
+/-- the first success of `a` is followed by a success of `b` whenever any success of `a` is -/
+def Dom (a b : Re) : Prop :=
+  ∀ x, Bnd x → ∀ l ls, a.ms x = l :: ls → ∀ l' ∈ ls, b.ms (x.drop l') ≠ [] → b.ms (x.drop l) ≠ []
+
+theorem seqDet_of_dom {a b : Re} (h : Dom a b) : SeqDet a b := by
+  intro x hx
+  rw [first_seq_findSome]
+  unfold Re.first
+  cases hm : a.ms x with
+  | nil => rfl
+  | cons l ls =>
+    simp only [List.findSome?_cons, List.head?_cons, Option.bind_some]
+    cases hb : (b.ms (x.drop l)).head? with
+    | some y => rfl
+    | none =>
+      simp only [Option.map_none]
+      apply List.findSome?_eq_none_iff.mpr
+      intro l' hl'
+      have hnil : b.ms (x.drop l) = [] := by
+        cases hq : b.ms (x.drop l) with
+        | nil => rfl
+        | cons y ys => rw [hq] at hb; cases hb
+      have : b.ms (x.drop l') = [] := by
+        cases hq : b.ms (x.drop l') with
+        | nil => rfl
+        | cons y ys => exact absurd hnil (h x hx l ls hm l' hl' (by rw [hq]; simp))
+      simp [this]
+
+def wStarRe : Re := Re.star (Re.cls false wsRanges) true
+def rparenRe : Re := Re.cls false [(41, 41)]
+def closeRe : Re := Re.seq wStarRe rparenRe
+
+/-- white space, then `)` -/
+def closes (z : Cps) : Prop := (z.dropWhile (Re.inCls false wsRanges)).head? = some 41
+
+theorem drop_takeWhile_length (p : Nat → Bool) : ∀ (z : Cps), z.drop (z.takeWhile p).length = z.dropWhile p := by
+  intro z
+  induction z with
+  | nil => rfl
+  | cons c t ih =>
+    by_cases hc : p c = true
+    · simp only [List.takeWhile_cons, hc, if_true, List.length_cons, List.drop_succ_cons, List.dropWhile_cons]
+      exact ih
+    · simp [List.takeWhile_cons, List.dropWhile_cons, hc]
+
+theorem rparen_ms_nil (z : Cps) (h : z.head? ≠ some 41) : rparenRe.ms z = [] := by
+  cases z with
+  | nil => simp [rparenRe, Re.ms]
+  | cons c t =>
+    simp only [List.head?_cons, ne_eq, Option.some.injEq] at h
+    simp [rparenRe, Re.ms, inCls_single, h]
+
+theorem close_ms_iff (z : Cps) : closeRe.ms z ≠ [] ↔ closes z := by
+  have hws41 : Re.inCls false wsRanges 41 = false := by decide
+  have hdw : z.drop (z.takeWhile (Re.inCls false wsRanges)).length = z.dropWhile (Re.inCls false wsRanges) :=
+    drop_takeWhile_length _ z
+  constructor
+  · intro hne
+    by_cases hc : closes z
+    · exact hc
+    · exfalso
+      apply hne
+      apply seq_ms_nil
+      intro l hl
+      rw [wStarRe, starCls_ms] at hl
+      have hle := mem_countdown hl
+      apply rparen_ms_nil
+      rcases Nat.lt_or_ge l (z.takeWhile (Re.inCls false wsRanges)).length with hlt | hge
+      · obtain ⟨c, t, hd, hcw⟩ := takeWhile_lt z l hlt
+        rw [hd]
+        simp only [List.head?_cons, ne_eq, Option.some.injEq]
+        intro e; subst e; rw [hws41] at hcw; cases hcw
+      · have : l = (z.takeWhile (Re.inCls false wsRanges)).length := by omega
+        rw [this, hdw]
+        exact hc
+  · intro hc
+    unfold closes at hc
+    rw [← hdw] at hc
+    have h1 : wStarRe.first z = some (z.takeWhile (Re.inCls false wsRanges)).length := by
+      rw [Re.first, wStarRe, starCls_ms, head_countdown]
+    have h2 : rparenRe.first (z.drop (z.takeWhile (Re.inCls false wsRanges)).length) = some 1 := by
+      cases hd : z.drop (z.takeWhile (Re.inCls false wsRanges)).length with
+      | nil => rw [hd] at hc; cases hc
+      | cons c t =>
+        rw [hd] at hc
+        simp only [List.head?_cons, Option.some.injEq] at hc
+        subst hc
+        rw [rparenRe, first_cls_cons]; rfl
+    have := first_seq_some h1 h2
+    intro hnil
+    have h3 : (Re.seq wStarRe rparenRe).ms z = [] := hnil
+    rw [Re.first, h3] at this
+    cases this
+
+
+/-! ## URI: the unquoted body `({urlchar})*` -/
+
+def plainRanges : List (Nat × Nat) := [(9, 9), (33, 33), (35, 38), (40, 40), (42, 91), (93, 126)]
+def specialRanges : List (Nat × Nat) := [(0, 8), (11, 11), (14, 32), (34, 34), (39, 39), (127, 127)]
+def termRe : Re := Re.alt nlRe (Re.cls false [(32, 32)])
+def urlHexRe : Re := Re.seq (Re.rep hexRe 1 6 true) termRe
+def urlcharRe : Re := Re.alt (Re.cls false plainRanges) (Re.alt nonasciiRe
+  (Re.alt (Re.seq bsRe urlHexRe) (Re.alt (Re.seq bsRe (Re.cls false specialRanges)) bsRe)))
+def strQRe (q : Nat) : Re := Re.seq (Re.cls false [(q, q)]) (Re.seq (strBody q) (Re.cls false [(q, q)]))
+def uriBodyRe : Re := Re.alt (Re.alt (strQRe 34) (strQRe 39)) (Re.star urlcharRe true)
+
+theorem reURI_shape : reURI = Re.seq uLetter (Re.seq rLetter (Re.seq lLetter (Re.seq lparenRe
+    (Re.seq wStarRe (Re.seq uriBodyRe closeRe))))) := by decide
+
+theorem inR_eq (cs : List (Nat × Nat)) (c : Nat) : Re.inCls false cs c = inR cs c := (inR_eq_inCls cs c).symm
+
+theorem plain_facts (c : Nat) (h : Re.inCls false plainRanges c = true) :
+    c < 128 ∧ c ≠ 92 ∧ c ≠ 41 ∧ c ≠ 10 ∧ c ≠ 13 ∧ c ≠ 12 ∧ c ≠ 32 := by
+  rw [inR_eq] at h
+  simp only [plainRanges, inR, List.any_cons, List.any_nil, Bool.or_false, Bool.or_eq_true, Bool.and_eq_true,
+    decide_eq_true_eq] at h
+  omega
+
+theorem hex_plain (c : Nat) (h : isHex c = true) : Re.inCls false plainRanges c = true := by
+  rw [inR_eq]
+  simp only [isHex, Bool.or_eq_true, Bool.and_eq_true, decide_eq_true_eq] at h
+  simp only [plainRanges, inR, List.any_cons, List.any_nil, Bool.or_false, Bool.or_eq_true, Bool.and_eq_true,
+    decide_eq_true_eq]
+  omega
+
+theorem special_facts (c : Nat) (h : Re.inCls false specialRanges c = true) :
+    c < 128 ∧ c ≠ 92 ∧ Re.inCls false plainRanges c = false ∧ isHex c = false := by
+  rw [inR_eq] at h
+  simp only [specialRanges, inR, List.any_cons, List.any_nil, Bool.or_false, Bool.or_eq_true, Bool.and_eq_true,
+    decide_eq_true_eq] at h
+  refine ⟨by omega, by omega, ?_, ?_⟩
+  · rw [inR_eq]
+    simp only [plainRanges, inR, List.any_cons, List.any_nil, Bool.or_false, Bool.or_eq_false_iff,
+      Bool.and_eq_false_iff, decide_eq_false_iff_not]
+    omega
+  · simp only [isHex, Bool.or_eq_false_iff, Bool.and_eq_false_iff, decide_eq_false_iff_not]
+    omega
+
+theorem nonascii_iff (c : Nat) : Re.inCls true [(0, 127)] c = decide (128 ≤ c) := by
+  simp only [Re.inCls, List.any_cons, List.any_nil, Bool.or_false]
+  by_cases h : 128 ≤ c
+  · simp [h]; omega
+  · simp [h]; omega
+
+theorem urlchar_ms_nbs (c : Nat) (t : Cps) (h : c ≠ 92) : urlcharRe.ms (c :: t) =
+    (if Re.inCls false plainRanges c then [1] else []) ++ (if 128 ≤ c then [1] else []) := by
+  show (Re.cls false plainRanges).ms (c :: t) ++ (nonasciiRe.ms (c :: t) ++ ((Re.seq bsRe urlHexRe).ms (c :: t) ++
+    ((Re.seq bsRe (Re.cls false specialRanges)).ms (c :: t) ++ bsRe.ms (c :: t)))) = _
+  rw [seq_bs_ms, seq_bs_ms]
+  simp [Re.ms, bsRe, nonasciiRe, inCls_single, h, nonascii_iff]
+
+theorem urlchar_ms_bs (t : Cps) : urlcharRe.ms (92 :: t) =
+    (urlHexRe.ms t).map (1 + ·) ++ (((Re.cls false specialRanges).ms t).map (1 + ·) ++ [1]) := by
+  show (Re.cls false plainRanges).ms (92 :: t) ++ (nonasciiRe.ms (92 :: t) ++ ((Re.seq bsRe urlHexRe).ms (92 :: t) ++
+    ((Re.seq bsRe (Re.cls false specialRanges)).ms (92 :: t) ++ bsRe.ms (92 :: t)))) = _
+  rw [seq_bs_ms, seq_bs_ms]
+  have h1 : Re.inCls false plainRanges 92 = false := by decide
+  have h2 : Re.inCls true [(0, 127)] 92 = false := by decide
+  simp [Re.ms, bsRe, nonasciiRe, inCls_single, h1, h2]
+
+theorem urlchar_nonNullable : urlcharRe.nonNullable = true := by decide
+
+theorem urlchar_dead (n : Nat) (z : Cps) (h : urlcharRe.ms z = []) : Re.starMs urlcharRe.ms true n z = [0] := by
+  cases n with
+  | zero => rfl
+  | succ n => exact starMs_stuck _ _ n h
+
+theorem urlchar_ms_hexhead (h : Nat) (t : Cps) (hh : isHex h = true) : urlcharRe.ms (h :: t) = [1] := by
+  have hp := hex_plain h hh
+  have hf := plain_facts h hp
+  rw [urlchar_ms_nbs h t hf.2.1, hp]
+  have : ¬ 128 ≤ h := by omega
+  simp [this]
+
+def termLens : Cps → List Nat
+  | [] => []
+  | e :: w => nlLens (e :: w) ++ (if e = 32 then [1] else [])
+
+theorem term_ms (z : Cps) : termRe.ms z = termLens z := by
+  cases z with
+  | nil => simp [termRe, Re.ms, nl_ms, nlLens, termLens]
+  | cons e w => simp [termRe, Re.ms, nl_ms, termLens, inCls_single]
+
+theorem termLens_hex (e : Nat) (w : Cps) (h : isHex e = true) : termLens (e :: w) = [] := by
+  have : e ≠ 32 := by intro e'; subst e'; revert h; decide
+  simp [termLens, nlLens_hex e w h, this]
+
+theorem urlHex_ms (d : Nat) (u : Cps) (h : isHex d = true) :
+    urlHexRe.ms (d :: u) = (termLens (u.drop (runLen isHex u 5))).map (1 + runLen isHex u 5 + ·) := by
+  show List.flatMap _ ((Re.rep hexRe 1 6 true).ms (d :: u)) = _
+  rw [hexrep_ms d u h, List.flatMap_map]
+  generalize hr : runLen isHex u 5 = r
+  have key : ∀ i, i < r → (List.map (fun x => 1 + i + x) (termRe.ms (List.drop (1 + i) (d :: u)))) = [] := by
+    intro i hi
+    obtain ⟨e, v, hev, he⟩ := runLen_drop_head isHex u 5 i (by omega)
+    rw [Nat.add_comm 1 i, List.drop_succ_cons, hev, term_ms, termLens_hex e v he]; rfl
+  cases r with
+  | zero => simp [countdown, term_ms]
+  | succ r =>
+    simp only [countdown, List.flatMap_cons]
+    rw [flatMap_nil_of_all _ _ (fun i hi => key i (by have := mem_countdown hi; omega))]
+    have e : List.drop (1 + (r + 1)) (d :: u) = List.drop (r + 1) u := by
+      rw [Nat.add_comm 1 (r + 1), List.drop_succ_cons]
+    simp [term_ms, e]
+
+theorem urlHex_ms_nonhex (t : Cps) (h : ∀ d u, t = d :: u → isHex d = false) : urlHexRe.ms t = [] := by
+  apply seq_ms_nil
+  intro l hl
+  exfalso
+  cases t with
+  | nil => simp [Re.ms, Re.repMs, hexRe] at hl
+  | cons d u =>
+    have hd := h d u rfl
+    have := repMs_one_cls hexRe.ms isHex (by simp [hexRe, Re.ms]) hex_ms_cons 5 d u
+    simp only [hd, Bool.false_eq_true, if_false] at this
+    have e : (Re.rep hexRe 1 6 true).ms (d :: u) = [] := this
+    rw [e] at hl
+    cases hl
+
+theorem termLens_ne_nil (z : Cps) (h : termLens z ≠ []) :
+    ∃ e w, z = e :: w ∧ urlcharRe.ms (e :: w) = [] ∧
+      (termLens z = [1] ∨ (termLens z = [2, 1] ∧ ∃ w', w = 10 :: w')) := by
+  cases z with
+  | nil => simp [termLens] at h
+  | cons e w =>
+    refine ⟨e, w, rfl, ?_, ?_⟩
+    · have he : e = 10 ∨ e = 13 ∨ e = 12 ∨ e = 32 := by
+        simp only [termLens, nlLens] at h
+        by_cases h10 : e = 10
+        · exact Or.inl h10
+        · by_cases h13 : e = 13
+          · exact Or.inr (Or.inl h13)
+          · by_cases h12 : e = 12
+            · exact Or.inr (Or.inr (Or.inl h12))
+            · by_cases h32 : e = 32
+              · exact Or.inr (Or.inr (Or.inr h32))
+              · simp [h10, h13, h12, h32] at h
+      have h92 : e ≠ 92 := by omega
+      rw [urlchar_ms_nbs e w h92]
+      have hp : Re.inCls false plainRanges e = false := by
+        rcases he with rfl | rfl | rfl | rfl <;> decide
+      have : ¬ 128 ≤ e := by omega
+      simp [hp, this]
+    · simp only [termLens, nlLens]
+      by_cases h10 : e = 10
+      · subst h10; simp
+      · by_cases h13 : e = 13
+        · subst h13
+          by_cases hw : w.head? = some 10
+          · right
+            simp only [hw, if_true]
+            refine ⟨by simp, ?_⟩
+            cases w with
+            | nil => simp at hw
+            | cons f w' => simp at hw; subst hw; exact ⟨w', rfl⟩
+          · left; simp [hw]
+        · by_cases h12 : e = 12
+          · subst h12; simp
+          · by_cases h32 : e = 32
+            · subst h32; simp
+            · simp [termLens, nlLens, h10, h13, h12, h32] at h
+
 end CssVerif.EncTok
